@@ -407,9 +407,10 @@ Proof.
   - (* FBind *)
     destruct v0 as [a b]. cbn [fst snd] in *. apply andb_true_iff in Hwf. destruct Hwf as [H1 H2].
     rewrite <- app_assoc, (IHf _ _ H1), (H _ _ _ H2). reflexivity.
-  - (* FMap *)
+  - (* FMapD *)
+    apply andb_true_iff in Hwf. destruct Hwf as [Hdom Hwf].
     destruct (from v0) as [a|] eqn:E; [|discriminate].
-    rewrite (IHf _ _ Hwf). rewrite (H _ _ E). reflexivity.
+    rewrite (IHf _ _ Hwf). rewrite (H _ _ E Hdom). reflexivity.
   - (* FGuard *)
     apply andb_true_iff in Hwf. destruct Hwf as [H1 H2].
     rewrite (IHf _ _ H1), H2. reflexivity.
@@ -649,9 +650,10 @@ Proof.
   - destruct x as [a b], y as [a' b']. cbn [fst snd] in *.
     apply andb_true_iff in E. destruct E as [E1 E2].
     apply IHf in E1. subst. apply H in E2. subst. reflexivity.
-  - destruct (from x) as [a|] eqn:Ex; [|discriminate].
+  - apply andb_true_iff in E. destruct E as [E0 E]. apply andb_true_iff in E0. destruct E0 as [Dx Dy].
+    destruct (from x) as [a|] eqn:Ex; [|discriminate].
     destruct (from y) as [b|] eqn:Ey; [|discriminate].
-    apply IHf in E. subst. rewrite <- (H _ _ Ex), <- (H _ _ Ey). reflexivity.
+    apply IHf in E. subst. rewrite <- (H _ _ Ex Dx), <- (H _ _ Ey Dy). reflexivity.
   - apply IHf. exact E.
   - destruct x as [a|], y as [b|]; try discriminate; [|reflexivity].
     f_equal. apply IHf. exact E.
@@ -672,7 +674,8 @@ Proof.
   - rewrite W. reflexivity.
   - apply andb_true_iff in W. destruct W as [W1 W2]. rewrite (IHf1 _ W1), (IHf2 _ W2). reflexivity.
   - apply andb_true_iff in W. destruct W as [W1 W2]. rewrite (IHf _ W1), (H _ _ W2). reflexivity.
-  - destruct (from x) as [a|]; [|discriminate]. apply IHf. exact W.
+  - apply andb_true_iff in W. destruct W as [D W]. rewrite D. cbn [andb].
+    destruct (from x) as [a|]; [|discriminate]. apply IHf. exact W.
   - apply andb_true_iff in W. destruct W as [W1 _]. apply IHf. exact W1.
   - destruct x as [a|]; [|reflexivity]. apply IHf. exact W.
   - destruct x as [l|]; [|reflexivity].
